@@ -19,15 +19,23 @@
 (*     zeroed (ClearBehind = TRUE: a candidate repair);                     *)
 (*   - an append writes its frames one by one; a crash may fall between     *)
 (*     two of them; damage at rest zeroes a header ("zero"), invalidates it *)
-(*     ("type") or garbles one payload cell ("crc").                        *)
+(*     ("type"), garbles one payload cell ("crc") or alters the declared    *)
+(*     length of a frame ("len": the checksum fails and the reader          *)
+(*     resynchronises at the declared extent - inside payload bytes, which  *)
+(*     read as an invalid header, or as the end-of-log marker when the      *)
+(*     payload consists of zero bytes).                                     *)
 (*                                                                         *)
 (* NoSplice (C08 at the frame / record layer): every entry the reader       *)
 (* delivers consists of all frames of ONE appended entry, in order.         *)
 (*                                                                         *)
 (* TLC results (section 10 of DESIGN.md, finding D10):                      *)
-(*   MC_Stale.cfg          DamageKinds = {"type", "crc"}: NoSplice holds    *)
-(*   MC_Stale_D10.cfg      DamageKinds = {"zero"}: NoSplice VIOLATED - the  *)
-(*                         trace is the history of findings/D10-demo        *)
+(*   MC_Stale.cfg          {"type", "crc", "len"}, no all-zero payloads:    *)
+(*                         NoSplice holds                                   *)
+(*   MC_Stale_D10.cfg      {"zero"}: NoSplice VIOLATED - the trace is the   *)
+(*                         history of findings/D10-demo                     *)
+(*   MC_Stale_D10len.cfg   {"len"} with all-zero payloads: VIOLATED too -   *)
+(*                         the second way damage puts the marker in the     *)
+(*                         reader's way                                     *)
 (*   MC_Stale_repair.cfg   all kinds, ClearBehind = TRUE: NoSplice holds    *)
 (* The harness experiment `damage --dmgcrash` replays the same histories on *)
 (* the real code, aimed so that the spliced entry also decodes.             *)
@@ -38,7 +46,8 @@ CONSTANTS B,            \* cells per block (header = 1 cell)
           NBlocks,      \* blocks in the file
           Lens,         \* payload lengths of entries
           MaxAppends, MaxCrashes, MaxDamage,
-          DamageKinds,  \* subset of {"zero", "type", "crc"}
+          DamageKinds,  \* subset of {"zero", "type", "crc", "len"}
+          PayZero,      \* subset of BOOLEAN: may a payload consist of zero bytes
           ClearBehind   \* open zeroes everything behind the point where the writer resumes
 
 N == B * NBlocks
@@ -50,10 +59,12 @@ TLast == 4
 IsFirstT(t) == t \in {TFull, TFirst}
 IsLastT(t) == t \in {TFull, TLast}
 
-Z == [k |-> "Z", e |-> 0, part |-> 0, n |-> 0, t |-> 0]
-X == [k |-> "X", e |-> 0, part |-> 0, n |-> 0, t |-> 0]          \* garbled cell / invalid header
-H(e, part, n, t) == [k |-> "H", e |-> e, part |-> part, n |-> n, t |-> t]
-P(e, part, i) == [k |-> "P", e |-> e, part |-> part, n |-> i, t |-> 0]
+(* c: for a header, the payload length its checksum was computed over (n is the DECLARED length, which *)
+(* damage may alter); for a payload cell, 1 iff the payload consists of zero bytes                      *)
+Z == [k |-> "Z", e |-> 0, part |-> 0, n |-> 0, t |-> 0, c |-> 0]
+X == [k |-> "X", e |-> 0, part |-> 0, n |-> 0, t |-> 0, c |-> 0]          \* garbled cell / invalid header
+H(e, part, n, t) == [k |-> "H", e |-> e, part |-> part, n |-> n, t |-> t, c |-> n]
+P(e, part, i, z) == [k |-> "P", e |-> e, part |-> part, n |-> i, t |-> 0, c |-> IF z THEN 1 ELSE 0]
 
 VARIABLES cells,      \* [0..N-1 -> cell]
           wpos,       \* where the writer stands
@@ -79,11 +90,11 @@ Split(pos, rest, part, acc) ==
 
 FrameEnd(fr) == fr.pos + 1 + fr.n
 
-WriteFrames(c, e, frs, upto) ==
+WriteFrames(c, e, frs, upto, z) ==
   [i \in 0..(N - 1) |->
      IF \E j \in 1..upto : frs[j].pos = i THEN LET j == CHOOSE j \in 1..upto : frs[j].pos = i IN H(e, frs[j].part, frs[j].n, frs[j].t)
      ELSE IF \E j \in 1..upto : frs[j].pos < i /\ i < FrameEnd(frs[j])
-          THEN LET j == CHOOSE j \in 1..upto : frs[j].pos < i /\ i < FrameEnd(frs[j]) IN P(e, frs[j].part, i - frs[j].pos)
+          THEN LET j == CHOOSE j \in 1..upto : frs[j].pos < i /\ i < FrameEnd(frs[j]) IN P(e, frs[j].part, i - frs[j].pos, z)
      ELSE c[i]]
 
 (* ---- reader: FrameReader + RecordReader over the cells ---- *)
@@ -92,10 +103,10 @@ ReadLoop(c, cur, within, buf, out) ==
   IF cur >= N THEN [out |-> out, pos |-> N]
   ELSE LET x == c[cur]
            nextBlock == (cur \div B + 1) * B
-       IN IF x.k = "Z" THEN [out |-> out, pos |-> cur]                                   \* nothing written here: the log ends
+       IN IF x.k = "Z" \/ (x.k = "P" /\ x.c = 1) THEN [out |-> out, pos |-> cur]          \* zero bytes where a header is expected: the log ends
           ELSE IF x.k # "H" \/ (cur % B) + 1 + x.n > B
                THEN ReadLoop(c, nextBlock, FALSE, <<>>, out)                              \* invalid header: rest of the block given up
-          ELSE LET crcOk == \A i \in 1..x.n : c[cur + i] = P(x.e, x.part, i)
+          ELSE LET crcOk == x.n = x.c /\ \A i \in 1..x.n : c[cur + i].k = "P" /\ c[cur + i].e = x.e /\ c[cur + i].part = x.part /\ c[cur + i].n = i
                    after == cur + 1 + x.n
                IN IF ~crcOk THEN ReadLoop(c, after, FALSE, <<>>, out)                     \* checksum failure: the frame alone is dropped
                   ELSE LET first == IsFirstT(x.t)
@@ -115,19 +126,19 @@ Init ==
 (* an append: all its frames, or - a crash - only the first j of them *)
 AppendEntry ==
   /\ mode = "Up" /\ nappends < MaxAppends
-  /\ \E len \in Lens :
+  /\ \E len \in Lens, z \in PayZero :
        LET e == nappends + 1
            frs == Split(wpos, len, 1, <<>>)
        IN /\ FrameEnd(frs[Len(frs)]) <= N                       \* (roll-over into another file is Wal.tla's business)
           /\ nframes' = [nframes EXCEPT ![e] = Len(frs)]
           /\ nappends' = e
-          /\ \/ /\ cells' = WriteFrames(cells, e, frs, Len(frs))
+          /\ \/ /\ cells' = WriteFrames(cells, e, frs, Len(frs), z)
                 /\ wpos' = FrameEnd(frs[Len(frs)])
                 /\ complete' = Append(complete, e)
                 /\ UNCHANGED <<mode, ncrashes>>
              \/ /\ ncrashes < MaxCrashes
                 /\ \E j \in 0..(Len(frs) - 1) :
-                     /\ cells' = WriteFrames(cells, e, frs, j)
+                     /\ cells' = WriteFrames(cells, e, frs, j, z)
                 /\ mode' = "Down" /\ ncrashes' = ncrashes + 1
                 /\ UNCHANGED <<wpos, complete>>
   /\ UNCHANGED <<delivered, lost, ndamage, dkinds>>
@@ -142,6 +153,7 @@ Damage ==
        /\ CASE kind = "zero" -> cells[i].k = "H" /\ cells' = [cells EXCEPT ![i] = Z]
             [] kind = "type" -> cells[i].k = "H" /\ cells' = [cells EXCEPT ![i] = X]
             [] kind = "crc"  -> cells[i].k = "P" /\ cells' = [cells EXCEPT ![i] = X]
+            [] kind = "len"  -> cells[i].k = "H" /\ \E nl \in (0..(B - 1)) \ {cells[i].n} : cells' = [cells EXCEPT ![i].n = nl]
        /\ dkinds' = dkinds \cup {kind}
   /\ ndamage' = ndamage + 1
   /\ UNCHANGED <<wpos, mode, nframes, complete, delivered, lost, nappends, ncrashes>>
